@@ -26,6 +26,19 @@ def fixed_docs():
     ]
 
 
+def ns_doc():
+    """the same local names in no namespace, in a default namespace, under a prefix bound to the same URI and under another one;
+    attributes with and without prefix; the default namespace undeclared and re-declared further in"""
+    E, A, T, R = xdm.E, xdm.A, xdm.T, xdm.R
+    U, V, D = "urn:u", "urn:v", "urn:d"
+    return R(E("a", E("b", a=[A("x", "1"), A("x", "2", p="p", u=U)], u=U),
+                    E("b", p="p", u=U),
+                    E("b", T("t"), a=[A("x", "3", p="q", u=V)], p="q", u=V),
+                    E("b", E("a"), nsd=[["", ""]]),
+                    E("c", E("b", u=D), u=D, nsd=[["", D]]),
+               u=U, nsd=[["", U], ["p", U], ["q", V]]))
+
+
 NSMAP = dict({"p": "urn:u", "q": "urn:v"}, **xpgen.EXT_NS)
 
 
@@ -33,6 +46,7 @@ def make_docs(rng, n_random):
     docs = fixed_docs()
     for k in range(n_random):
         docs.append(xdm.random_doc(rng, maxnodes=rng.choice([6, 9, 12, 14]), ns=(k % 3 == 2)))
+    docs.append(ns_doc())
     # unique ID values
     for t in docs:
         k = [0]
@@ -182,6 +196,16 @@ def build_cases(rng, tier):
             ctxs = list(range(1, n + 1)) if (e["op"] == "path" and not quick) else rng.sample(range(1, n + 1), min(n, 3 if quick else 5))
             for ctx in ctxs:
                 cases.append((d + 1, ctx, 1, 1, e, {}))
+    # namespaces: every axis x name test (unprefixed, prefixed, prefix:*, *) from every node of the namespace document
+    nd = len(docs)
+    nsflat = flats[nd - 1]
+    for ax in ["child", "descendant", "descendant-or-self", "self", "parent", "ancestor", "ancestor-or-self", "following-sibling", "preceding-sibling",
+               "following", "preceding", "attribute"]:
+        for tst in [t_name("a"), t_name("b"), t_name("x"), t_name("b", "urn:u", "p"), t_name("b", "urn:v", "q"), t_name("x", "urn:u", "p"),
+                    t_nsany("urn:u", "p"), t_nsany("urn:v", "q"), T_ANY]:
+            e = path([step(ax, tst, abbr=False)])
+            for ctx in range(1, nsflat["n"] + 1):
+                cases.append((nd, ctx, 1, 1, e, {}))
     nrand = 6000 if quick else 120000
     varsets = [{}, {"n": {"t": "num", "v": {"k": "fin", "neg": False, "m": 16}}, "s": {"t": "str", "v": xdm.cps("t")},
                     "b": {"t": "bool", "v": True}}]
